@@ -1,5 +1,5 @@
 """C09 - multiplexed requests never receive another request's response (spec/Connection.tla)."""
-from checks import _conn
+from checks import _conn, _driver
 
 META = {
     "property_id": "C09",
@@ -20,7 +20,10 @@ META = {
 
 def run(ctx):
     _conn.run(ctx, "C09")
+    _driver.system_tier(ctx, "C09")     # thorough: whole-driver runs against spec/Driver.tla, rejections owned by C09
 
 
 def replay(ctx, obj):
+    if _driver.is_system_replay(obj):
+        return _driver.replay_system(ctx, obj)
     _conn.replay(ctx, "C09", obj)
